@@ -212,3 +212,63 @@ Proof.
   intros Hi Hv. unfold lut_read_bytes. cbn [Z.eqb Pos.eqb].
   rewrite Z.min_r by lia. lia.
 Qed.
+
+
+(* ------------------------------------------------------------------ the 32-bit helper operations *)
+Lemma clz32_spec a : 0 < a < 2 ^ 31 -> 0 <= clz32 a <= 31 /\ 2 ^ (31 - clz32 a) <= a < 2 ^ (32 - clz32 a).
+Proof.
+  intros [Hp Hl]. unfold clz32.
+  destruct (Z.ltb_spec a 0); [lia|]. destruct (Z.eqb_spec a 0); [lia|].
+  pose proof (Z.log2_spec a Hp) as [Hlo Hhi].
+  assert (Hlog : 0 <= Z.log2 a < 31).
+  { split; [apply Z.log2_nonneg|]. apply Z.log2_lt_pow2; lia. }
+  replace (31 - (32 - Z.log2 a - 1)) with (Z.log2 a) by lia.
+  replace (32 - (32 - Z.log2 a - 1)) with (Z.succ (Z.log2 a)) by lia.
+  split; [lia | split; assumption].
+Qed.
+
+Lemma clz32_edges : clz32 0 = 32 /\ (forall a, a < 0 -> clz32 a = 0).
+Proof.
+  split; [reflexivity|]. intros a Ha. unfold clz32. destruct (Z.ltb_spec a 0); [reflexivity | lia].
+Qed.
+
+Lemma sat32_in_range v : - 2147483648 <= sat32 4 v <= 2147483647.
+Proof. unfold sat32, clampz. cbn [Z.eqb Pos.eqb]. lia. Qed.
+
+Lemma sat32_id ofm_elem v : - 2147483648 <= v <= 2147483647 -> sat32 ofm_elem v = v.
+Proof. intros H. unfold sat32, clampz. destruct (ofm_elem =? 4); lia. Qed.
+
+(* SHR in NATURAL mode rounds half up: the result is the nearest integer to a / 2^b *)
+Lemma shr_round_natural a b : 0 < b -> let q := shr_round 2 a b in 2 ^ b * q - 2 ^ (b - 1) <= a < 2 ^ b * q + 2 ^ (b - 1).
+Proof.
+  intros Hb q. unfold q, shr_round. destruct (Z.leb_spec b 0); [lia|]. cbn [Z.eqb Pos.eqb].
+  assert (Hpos : 0 < 2 ^ b) by (apply Z.pow_pos_nonneg; lia).
+  assert (Hhalf : 2 ^ b = 2 * 2 ^ (b - 1)).
+  { replace b with (Z.succ (b - 1)) at 1 by lia. rewrite Z.pow_succ_r by lia. reflexivity. }
+  pose proof (Z.div_mod (a + 2 ^ (b - 1)) (2 ^ b) ltac:(lia)) as Hdm.
+  pose proof (Z.mod_pos_bound (a + 2 ^ (b - 1)) (2 ^ b) Hpos) as Hm.
+  lia.
+Qed.
+
+(* the table Vela builds for ARG_MAX (every entry slope -128, base c - 1) turns the lower seven bits of the value - the
+   reversed channel index that the preceding convolution added - back into the channel index *)
+Lemma lut16_interp_argmax c u :
+  0 <= c - 1 <= 127 -> 0 <= u ->
+  lut16_interp ((-128 mod 65536) * 65536 + (c - 1)) u = c - 1 - u mod 128.
+Proof.
+  intros Hc Hu. unfold lut16_interp.
+  replace (-128 mod 65536) with 65408 by reflexivity.
+  replace ((65408 * 65536 + (c - 1)) mod 65536) with (c - 1)
+    by (rewrite Z.add_comm, Z.mod_add by lia; symmetry; apply Z.mod_small; lia).
+  replace ((65408 * 65536 + (c - 1)) / 65536) with 65408
+    by (rewrite Z.add_comm, Z.div_add by lia; rewrite (Z.div_small (c - 1) 65536) by lia; reflexivity).
+  assert (Hb : to_signed 16 (c - 1) = c - 1).
+  { unfold to_signed. change (2 ^ (16 - 1)) with 32768. destruct (Z.ltb_spec (c - 1) 32768); [reflexivity | lia]. }
+  assert (Hs : to_signed 16 65408 = -128) by reflexivity.
+  rewrite Hb, Hs.
+  pose proof (Z.mod_pos_bound u 128 ltac:(lia)) as Hm.
+  set (f := u mod 128) in *.
+  assert (Hd : (-128 * f + 64) / 128 = - f).
+  { symmetry. apply (Z.div_unique (-128 * f + 64) 128 (- f) 64); lia. }
+  rewrite Hd. unfold clampz. lia.
+Qed.
